@@ -326,7 +326,10 @@ def _maybe_cast_type(values, newval):
     dtype = np.asarray(newval).dtype
     
     if values.dtype.kind == dtype.kind:
-        pass # same kind
+        # same kind: integers are widened when the new values do not fit (they would silently wrap around)
+        if dtype.kind in 'iu' and dtype.itemsize > values.dtype.itemsize \
+                and not np.array_equal(np.asarray(newval).astype(values.dtype), newval):
+            values = np.asarray(values, dtype=dtype)
     elif values.dtype.kind == 'O':
         pass # or already object
     elif values.dtype.kind == 'f' and dtype.kind == 'i':
